@@ -45,6 +45,17 @@ def matrices(rep):
     defs = local_defs(bs.node)
     s = [d for d in defs.get("S", []) if d.kind == "assign"]
     rep.need("R15", len(s), 1, "S = ... in build_S")
+    if not any(isinstance(n, ast.BinOp) for n in ast.walk(s[0].value)) or "zeros" in norm(s[0].value):
+        # direct fill of S: every arc must be ACCUMULATED with the sign of its role
+        fills = [n for n in walk_local(bs.node) if isinstance(n, (ast.Assign, ast.AugAssign)) and
+                 any(isinstance(t, ast.Subscript) and norm(t.value) == "S" for t in (n.targets if isinstance(n, ast.Assign) else [n.target]))]
+        if not fills:
+            rep.ob("O17.1", "R15", bs, None, s[0].stmt, "S is neither S_plus - S_minus nor filled entry by entry")
+        for n in fills:
+            rep.ob("O17.1", "R15", bs, isinstance(n, ast.AugAssign) and isinstance(n.op, (ast.Add, ast.Sub)), n,
+                   "entries of S are accumulated (+=): a species on both sides of one reaction, or parallel arcs, must add up to produced minus consumed "
+                   "(a plain assignment keeps only the last arc)", node=n)
+        return
 
     def atom(n):
         if isinstance(n, ast.Name):
@@ -234,7 +245,21 @@ def lp_sites(rep):
                    "non-zero cost 'unbounded' is reported as 'no solution' (e.g. C + B >> F + A is called non-conservative)",
                    {"cost_sign": sign, "all_lower_bounds_finite": lo, "all_upper_bounds_finite": hi}, node=c)
             # how is failure mapped?
-    rep.need("R10", n, 2, "linprog call sites in stoich.py")
+    # who relies on the conservation-law LP?  (while F-C17 is open, only the conservativity front-ends may)
+    users = []
+    for fi2 in rep.repo.module(ST).funcs.values():
+        if ".<locals>." in fi2.qual or fi2.qual == "_positive_conservation_law_from_basis":
+            continue
+        for c2 in walk_local(fi2.node, into_nested=True):
+            if isinstance(c2, ast.Call) and call_name(c2) == "_positive_conservation_law_from_basis":
+                users.append((fi2, c2))
+    for fi2, c2 in users:
+        ok2 = fi2.qual in ("is_conservative", "compute_conservativity")
+        arg = norm(c2.args[0]) if c2.args else "?"
+        rep.ob("O17.2", "R10", fi2, ok2, f"{fi2.qual}: {norm(c2)[:70]}",
+               "the coefficient-space LP is only an oracle for positive *conservation laws*; any other decision routed through it inherits its boundedness defect "
+               "(unbounded read as 'no solution')", node=c2)
+    rep.need("R10", n, 1, "linprog call sites in stoich.py")
     # no other linprog site in the analysed CRN property modules
     others = []
     for fi in rep.repo.all_funcs():
